@@ -205,4 +205,49 @@ theorem ancestorsOrSelf_child (t : Tree) (path : Path) (i : Nat) (chain : List T
           rw [ih k ch hck hel]
           simp
 
+/-- Element start node: the first token's start tag carries the name the doctype writer computed. -/
+theorem doctype_element (esc : Escapers) (env : Env) (pr : TokenParams) (t : Tree) (start : Path)
+    (name : Nat) (ks : List Tree) (hat : t.at? start = some (.node (.element name) ks))
+    (dn : Str) (toks : List (Path × Output × OutputToken))
+    (hd : doctypeName env t start = .ok dn)
+    (ht : tokensWith esc env pr t start = .ok toks) :
+    toks.head?.map (fun k => (k.1, k.2.1, k.2.2.text)) =
+      some (start, Output.startTagOpen name, fmt Gen.fmtStartTagOpen [dn]) := by
+  obtain ⟨rest, hanc⟩ := ancestorsOrSelf_of_at? t start _ hat
+  have hscope : namespacesInScope t start = some (namespacesInScopeChain (.node (.element name) ks :: rest)) := by
+    simp [namespacesInScope, hanc]
+  -- the doctype name
+  unfold doctypeName at hd
+  simp only [hat, Tree.value] at hd
+  have hstack : doctypeStack t start (.node (.element name) ks) =
+      (initStack t start).push (Tree.node (.element name) ks).nsDecls := by
+    simp [doctypeStack, initStack]
+  rw [hstack] at hd
+  -- the first token
+  unfold tokensWith at ht
+  have hg : genOutputs t start =
+      genNode (namespacesInScopeChain (.node (.element name) ks :: rest)) true start (.node (.element name) ks) := by
+    simp [genOutputs, hat, hscope]
+  rw [hg, genNode_element] at ht
+  simp only [List.cons_append, List.nil_append, renderAllWith, renderAtWith, hat, renderXmlWith] at ht
+  cases hf : ((initStack t start).push (Tree.node (.element name) ks).nsDecls).elementFullname env name with
+  | error e => simp [hf] at hd
+  | ok full =>
+    simp only [hf] at hd ht
+    cases hd
+    by_cases hc : (env.nsOfName name == Env.noNamespace &&
+        ((initStack t start).push (Tree.node (.element name) ks).nsDecls).hasDefaultNamespace) = true
+    · simp [hc] at ht
+    simp only [hc, Bool.false_eq_true, if_false] at ht
+    split at ht
+    · rename_i l hl
+      split at hl
+      · cases hl
+        cases ht
+        rfl
+      · cases hl
+      · cases hl
+    · cases ht
+    · cases ht
+
 end XotModel
